@@ -122,10 +122,13 @@ PROPS = {
         'trusted': ['harness/codec.go independent encoder'],
     },
     'C09': {
-        'suites': [('rsub', 600, 40000), ('runack', 600, 40000), ('crash', 24, 1500)],
+        'props': ['C09', 'C09e'], 'suites': [('rsub', 600, 40000), ('runack', 600, 40000), ('penc', 1500, 60000), ('crash', 24, 1500)],
         'rule': 'crash: broker-level histories (3 clients, 6-24 steps: persistent sessions, subscriptions with all options, unsubscribes, QoS1/2 publishes to online/offline subscribers, partial ack flows) on the redis backend over an in-process RESP stand-in '
                 'that journals every write command; for EVERY prefix of the journal a fresh broker is started on the prefix state (start-up must succeed) and sessions, subscriptions, redelivery and QoS2 duplicate recognition are inspected against what had been acknowledged. '
-                'rsub/runack: store-level histories incl. restarts against the extracted models',
+                'rsub/runack: store-level histories incl. restarts against the extracted models. '
+                'penc: queue elements (PUBLISH with every optional field, strings of 0/255/256/65534/65535 bytes, payloads of 65534..200000 bytes in 1/12, PUBREL) and subscriptions encoded by queue.Elem.Encode / EncodeSubscription '
+                'and decoded again, plus 2-6 mutations (truncate, bit flip, byte set, append, insert/delete, raw bytes) decoded by the real decoders; compared byte for byte and field for field with Model/PersistEnc.v; '
+                'oracle: decode(encode v) = v on the implementation',
         'assumptions': ['the RESP stand-in (harness/resp.go) implements the commands used (hset hmget hgetall hdel del llen lrange lrem lset rpush scan ping select auth ...) as redis documents them',
                         'crash points are between storage commands of quiescent steps; a crash while two handlers interleave their commands is not enumerated'],
         'trusted': ['harness/resp.go', 'harness/redis.go scripted client'],
